@@ -489,7 +489,15 @@ AnyP::Uri::parse(const HttpRequestMethod& method, const SBuf &rawUrl)
             if (t && *t == ':') {
                 *t = '\0';
                 ++t;
-                foundPort = atoi(t);
+                // a port is 1*DIGIT; atoi() would accept signs and trailing
+                // garbage and wrap huge values into the valid range
+                foundPort = 0; // invalid unless proven otherwise below
+                int64_t rawPort = 0;
+                const char *digit = t;
+                for (; xisdigit(*digit) && rawPort <= 65535; ++digit)
+                    rawPort = rawPort * 10 + (*digit - '0');
+                if (digit != t && *digit == '\0' && rawPort <= 65535)
+                    foundPort = static_cast<int>(rawPort);
             }
         }
 
